@@ -109,8 +109,19 @@ def run(ctx):
         try:
             leaves = Extractor(prog, b, stop_at_loops=False).run()
         except NotATable as e:
-            viol(report, "C16-R1", b, "not-extractable", "%s cannot be linearised (%s): field coverage cannot be shown" % (b.qname, e))
-            continue
+            # `for x in self.f { v.push(x.into_owned()) }` is `self.f.into_iter().map(..).collect()` written as a loop: collapse
+            # such loops to `v = self.f` (element-wise copies keep the origin) and linearise what is left
+            b2 = collapse_collect_loops(prog, b)
+            leaves = None
+            if b2 is not None:
+                try:
+                    leaves = Extractor(prog, b2, stop_at_loops=False).run()
+                    report.nontriv(b.qname + "#collect-loop")
+                except NotATable as e2:
+                    e = e2
+            if leaves is None:
+                viol(report, "C16-R1", b, "not-extractable", "%s cannot be linearised (%s): field coverage cannot be shown" % (b.qname, e))
+                continue
         ok_any = False
         for conds, res in leaves:
             if res[0] == "variant" and res[1].split("::")[-1] not in ("Result", "Option"):
@@ -216,6 +227,103 @@ def normalisers(prog, cg, b):
                 n = m.group(1)
                 out.add("ascii case folding" if "ascii" in n else ("case folding" if "case" in n else "trimming"))
     return out
+
+
+ELEMENT_COPY = re.compile(r"::(into_owned|clone|to_owned|into|from|to_vec|to_string)$")
+
+
+def collapse_collect_loops(prog, b):
+    """copy of body b in which every loop of the shape `for x in <self.field> { V.push(copy-of(x)) }` is replaced by
+    `V = <self.field>`; None when some loop has another shape"""
+    import copy
+    import loops
+    lps, irr, dom = loops.natural_loops(b)
+    if not lps or irr:
+        return None
+    defs = mu.defs_of(b)
+    blocks = copy.deepcopy(b.blocks)
+    for h, info in lps.items():
+        body = set(info["body"])
+        nexts = [(bi, t) for bi, t in mu.calls(b, r"as std::iter::Iterator>::next$") if bi in body]
+        pushes = [(bi, t) for bi, t in mu.calls(b, r"^std::vec::Vec::<T, A>::push$") if bi in body]
+        if len(nexts) != 1 or len(pushes) != 1:
+            return None
+        # the iterated collection: a field of self, moved or borrowed into into_iter() / iter()
+        src_place = None
+        cur = mu.op_local(nexts[0][1]["args"][0])
+        for _ in range(10):
+            d = mu.single_def(defs, cur) if cur is not None else None
+            if d is None:
+                break
+            if d[1] == "term":
+                t = d[2]
+                cal = t["callee"]["def"] if t["callee"] else ""
+                if not (cal.endswith("IntoIterator>::into_iter") or cal.endswith("<impl [T]>::iter") or cal.endswith("as std::ops::Deref>::deref")):
+                    break
+                a0 = t["args"][0]
+                if a0.get("o") in ("copy", "move") and a0["pl"]["l"] == 1 and any(isinstance(p, dict) and "f" in p for p in a0["pl"]["p"]):
+                    src_place = a0["pl"]
+                    break
+                cur = mu.op_local(a0)
+                continue
+            rv = d[2]
+            if rv.get("k") == "ref":
+                if rv["pl"]["l"] == 1 and any(isinstance(p, dict) and "f" in p for p in rv["pl"]["p"]):
+                    src_place = rv["pl"]
+                    break
+                cur = rv["pl"]["l"]
+            elif rv.get("k") in ("use", "cast") and rv["op"].get("o") in ("copy", "move"):
+                pl = rv["op"]["pl"]
+                if pl["l"] == 1 and any(isinstance(p, dict) and "f" in p for p in pl["p"]):
+                    src_place = pl
+                    break
+                cur = pl["l"]
+            else:
+                break
+        if src_place is None:
+            return None
+        # the pushed value: the element, possibly through element-wise copies
+        pbi, pt = pushes[0]
+        cur = mu.op_local(pt["args"][1])
+        ok_elem = False
+        for _ in range(8):
+            d = mu.single_def(defs, cur) if cur is not None else None
+            if d is None:
+                break
+            if d[1] == "term":
+                t = d[2]
+                if not (t["callee"] and ELEMENT_COPY.search(t["callee"]["def"])):
+                    break
+                cur = mu.op_local(t["args"][0])
+                continue
+            rv = d[2]
+            if rv.get("k") in ("use", "cast", "ref") :
+                pl = rv["op"]["pl"] if rv.get("k") != "ref" else rv["pl"]
+                if any(isinstance(p, dict) and p.get("n") == "Some" for p in pl["p"]) and \
+                        mu.origin_local(b, defs, pl["l"]) == nexts[0][1]["dest"]["l"]:
+                    ok_elem = True
+                    break
+                cur = pl["l"]
+            else:
+                break
+        if not ok_elem:
+            return None
+        vl = None
+        rl = mu.op_local(pt["args"][0])
+        rd = mu.single_def(defs, rl) if rl is not None else None
+        if rd is not None and rd[1] != "term" and rd[2].get("k") == "ref" and not rd[2]["pl"]["p"]:
+            vl = rd[2]["pl"]["l"]
+        exits = [s2 for x in body for s2 in b.successors(x) if s2 not in body and b.blocks[s2]["term"]["t"] != "unreachable"]
+        if vl is None or len(set(exits)) != 1:
+            return None
+        sp = b.blocks[h]["stmts"][0]["sp"] if b.blocks[h]["stmts"] else nexts[0][1]["sp"]
+        blocks[h] = {"stmts": [{"s": "assign", "pl": {"l": vl, "p": [], "t": b.locals[vl]["t"]},
+                                "rv": {"k": "use", "op": {"o": "move", "pl": src_place}}, "sp": sp}],
+                     "term": {"t": "goto", "target": exits[0]}, "cleanup": False}
+    b2 = copy.copy(b)
+    b2.blocks = blocks
+    b2.preds = None
+    return b2
 
 
 def fields_used(prog, b):
